@@ -98,6 +98,18 @@ func c02Judge(orig signedTok, mutated []byte) (msg string, class string) {
 	if ev.Verify(orig.Key.Pub) == nil {
 		return fmt.Sprintf("altered token does not verify at first, but VERIFIES after the decoded Evidence was used (SetClaims of its own claims, MarshalJSON, GetInstanceID, encode, Verify with another key)\n  original: %x\n  altered:  %x", orig.Tok, mutated), "verified"
 	}
+	// the relying party keeps the Evidence BY VALUE (a list of decoded tokens)
+	// and goes on using the object it copied from for the genuine token: the
+	// kept value still stands for the altered one
+	kept := *ev
+	if err := ev.UnmarshalCOSE(orig.Tok); err == nil {
+		if kept.Verify(orig.Key.Pub) == nil {
+			return fmt.Sprintf("the Evidence value kept (copied) from the decoded altered token VERIFIES after the object it was copied from decoded the genuine token\n  original: %x\n  altered:  %x", orig.Tok, mutated), "verified"
+		}
+		if ev.Verify(orig.Key.Pub) != nil {
+			return fmt.Sprintf("the genuine token does not verify on an Evidence that decoded an altered one before\n  original: %x\n  altered:  %x", orig.Tok, mutated), "verified"
+		}
+	}
 	return "", "decoded-verify-failed"
 }
 
@@ -853,6 +865,27 @@ func TestC02_Splices(t *testing.T) {
 				if ok {
 					t.Fatalf("C02 violated: %s token VERIFIES with malformed key object #%d (%T)", kpA.Name(), i, k)
 				}
+			}
+			// a kept VALUE of the Evidence still stands for the token it
+			// decoded when the object it was copied from moves on to a token of
+			// another signer: that signer's key does not verify it
+			kpC := keyFor(rapid.SampledFrom([]int64{algA, icose.EdDSA, icose.ES256}).Draw(t, "algC"), kpA.Idx+1)
+			cTok, err := signModel(GenValid(t, mA.Prof, false), kpC)
+			if err != nil {
+				t.Fatalf("cannot sign: %v", err)
+			}
+			kept := *ev
+			if err := ev.UnmarshalCOSE(cTok.Tok); err != nil {
+				t.Fatalf("C02: own token does not decode on a used Evidence: %v", err)
+			}
+			if kept.Verify(kpC.Pub) == nil {
+				t.Fatalf("C02 violated: the Evidence value kept from a %s token verifies with the key of ANOTHER signer (%s) after the object it was copied from decoded that signer's token", kpA.Name(), kpC.Name())
+			}
+			if err := kept.Verify(kpA.Pub); err != nil {
+				t.Fatalf("C02 positive control failed on the kept Evidence value: %v", err)
+			}
+			if ev.Verify(kpA.Pub) == nil || ev.Verify(kpC.Pub) != nil {
+				t.Fatalf("C02 violated: the re-used Evidence does not stand for the token it decoded last (%s after %s)", kpC.Name(), kpA.Name())
 			}
 			st.Case(kpA.Name()+"|wrong-key|"+mA.ClassVector(), "wrong-key", icose.AlgName(algA))
 			return
